@@ -11,7 +11,8 @@ def tlc_enum(ctx, mod, spec, cfg_text, consts=None, env=None):
     for f in glob.glob(os.path.join(mod.VERIF, 'spec', '*.tla')):
         shutil.copy(f, d)
     open(os.path.join(d, 'run.cfg'), 'w').write(cfg_text)
-    out = mod.run(['tlc', '-workers', '8', '-metadir', os.path.join(d, 'meta'), '-dump', os.path.join(d, 'dump'),
+    # (-maxSetSize: the thorough client-state enumeration is a set of 17^5 programs; TLC's default bound is 10^6)
+    out = mod.run(['tlc', '-workers', '8', '-maxSetSize', '4000000', '-metadir', os.path.join(d, 'meta'), '-dump', os.path.join(d, 'dump'),
                    '-config', 'run.cfg', spec + '.tla'], 3000, cwd=d, ok=(0, 12, 13), env=dict(mod.ENV, **(env or {})))
     if 'No error has been found' not in out:
         import sys
